@@ -46,6 +46,9 @@ def run_both(paths, jobs=16, chunk=16, per_timeout=10, harness=HARNESS, driver=D
         for f in fm: model.update(f.result())
     return {p: (impl.get(p, []), model.get(p, [])) for p in paths}
 
+def strip_ghost(lines):
+    return [l for l in lines if not l.startswith("ghost ")]
+
 def first_diff(a, b):
     for i, (x, y) in enumerate(zip(a + ["<eof>"], b + ["<eof>"])):
         if x != y: return i, x, y
